@@ -353,9 +353,10 @@ void vfps::KickMap::updateSM()
         meshindex_t jd; //numper of lower mesh point from p'
         interpol_t xip; //distance of p' from lower mesh point
         xip = std::modf(poffs, &qp_int);
-        jd = qp_int;
 
-        if (jd < static_cast<meshindex_t>(_meshsize_kd)) {
+        // only convert when representable: (negative or huge) float -> unsigned is undefined
+        if (qp_int >= 0 && qp_int < static_cast<meshaxis_t>(_meshsize_kd)) {
+            jd = qp_int;
             // create vectors containing interpolation coefficiants
             calcCoefficiants(smc,xip,_it);
 
